@@ -20,7 +20,8 @@ class Z3H:
         return z3.RealVal(str(v)) if isinstance(v, Fraction) else z3.RealVal(v)
 
     def sqrt(self, e):
-        e = z3.simplify(e) if z3.is_expr(e) else self.real(e)
+        # sum-of-monomials normal form: radicands that are the same polynomial (e.g. up to where LLVM placed an fneg) share one sqrt symbol
+        e = z3.simplify(e, som=True) if z3.is_expr(e) else self.real(e)
         k = e.hash()
         for (ee, r) in self._sqrt.get(k, []):
             if ee.eq(e):
@@ -33,7 +34,7 @@ class Z3H:
         return r
 
     def trig(self, e):
-        e = z3.simplify(e) if z3.is_expr(e) else self.real(e)
+        e = z3.simplify(e, som=True) if z3.is_expr(e) else self.real(e)
         # sin is odd, cos is even: canonicalise the sign of the argument (the compiled code computes sin(-t) where the reference says -sin(t))
         lead = e
         while z3.is_add(lead):
@@ -333,3 +334,84 @@ class Native:
         fn.restype = None
         fn(inp, out)
         return [out[i] for i in range(nout)]
+
+
+# ---------------------------------------------------------------------------------------------
+# sign normal form: negations are pulled outwards and commutative operands ordered, so that two expression DAGs that differ only in where the compiler
+# placed an fneg (bit-identical in IEEE up to the sign of zero / NaN, which mode R does not model) become the same term
+# ---------------------------------------------------------------------------------------------
+def signnorm(t, memo=None):
+    memo = {} if memo is None else memo
+    s, c = _sn(t, memo)
+    return c if s > 0 else ir.T("fneg", c)
+
+
+def _key(t):
+    return repr(t)
+
+
+def _sn(t, memo):
+    r = memo.get(t)
+    if r is not None:
+        return r
+    k = t[0]
+    T = ir.T
+    if k == "in" or k in ("inf", "nan"):
+        r = (1, t)
+    elif k == "c":
+        r = (1, t) if t[1] >= 0 else (-1, T("c", -t[1]))
+    elif k == "fneg":
+        s, c = _sn(t[1], memo)
+        r = (-s, c)
+    elif k in ("fmul", "fdiv"):
+        sa, ca = _sn(t[1], memo)
+        sb, cb = _sn(t[2], memo)
+        if k == "fmul" and _key(ca) > _key(cb):
+            ca, cb = cb, ca
+        r = (sa * sb, T(k, ca, cb))
+    elif k in ("fadd", "fsub"):
+        sa, ca = _sn(t[1], memo)
+        sb, cb = _sn(t[2], memo)
+        if k == "fsub":
+            sb = -sb
+        if sa == sb:
+            if _key(ca) > _key(cb):
+                ca, cb = cb, ca
+            r = (sa, T("fadd", ca, cb))
+        else:
+            # sa*ca + sb*cb with opposite signs: canonical orientation by operand order
+            if _key(ca) <= _key(cb):
+                r = (sa, T("fsub", ca, cb))
+            else:
+                r = (sb, T("fsub", cb, ca))
+    elif k == "sqrt":
+        r = (1, T("sqrt", signnorm(t[1], memo)))
+    elif k == "fabs":
+        s, c = _sn(t[1], memo)
+        r = (1, T("fabs", c))
+    elif k == "uf" and t[1] == "sin":
+        s, c = _sn(t[2], memo)
+        r = (s, T("uf", "sin", c))
+    elif k == "uf" and t[1] == "cos":
+        s, c = _sn(t[2], memo)
+        r = (1, T("uf", "cos", c))
+    elif k == "ite":
+        r = (1, T("ite", condnorm(t[1], memo), signnorm(t[2], memo), signnorm(t[3], memo)))
+    else:
+        r = (1, T(k, *[signnorm(x, memo) if isinstance(x, tuple) and x and isinstance(x[0], str) and x[0] not in ("fcmp", "and", "or", "not", "true", "false") else
+                       (condnorm(x, memo) if isinstance(x, tuple) and x and x[0] in ("fcmp", "and", "or", "not", "true", "false") else x) for x in t[1:]]))
+    memo[t] = r
+    return r
+
+
+def condnorm(c, memo):
+    k = c[0]
+    if k in ("true", "false"):
+        return c
+    if k == "not":
+        return ir.T("not", condnorm(c[1], memo))
+    if k in ("and", "or"):
+        return ir.T(k, condnorm(c[1], memo), condnorm(c[2], memo))
+    if k == "fcmp":
+        return ir.T("fcmp", c[1], signnorm(c[2], memo), signnorm(c[3], memo))
+    return c
